@@ -76,6 +76,7 @@ partial def toExpr : SExp → Option Expr
     let kind ← match k with
       | "lv" => some BinKind.letValue | "le" => some .letError | "ld" => some .letDone
       | "seq" => some .seq | "fin" => some .fin | "wa" => some .whenAll | "sw" => some .stopWhen
+      | "any" => some .whenAny
       | _ => none
     pure (.bin kind a b)
   | _ => none
